@@ -546,12 +546,6 @@ func (ex *expander) opaqueMethod(n parse.Node, o *interp.Opaque, name string, ar
 	if ext, ok := ex.m.Ext[full]; ok {
 		pos := ex.src.Lit.Pos() + token.Pos(1+int(n.Position()))
 		v, err := ext(ex.m, pos, o, args)
-		if len(ex.m.Notes) > 0 {
-			last := &ex.m.Notes[len(ex.m.Notes)-1]
-			if last.Pos == pos {
-				last.Key = last.Rule + ":" + "template{{" + strings.TrimSpace(n.String()) + "}}"
-			}
-		}
 		return v, ex.wrap(n, err)
 	}
 	return nil, ex.undecided(n, "method .%s on a %s value has no model", name, o.Kind)
@@ -594,7 +588,7 @@ func (ex *expander) function(dot interp.Value, id *parse.IdentifierNode, args []
 	if hasFinal {
 		vals = append(vals, final)
 	}
-	if fl, ok := ex.src.Funcs[name]; ok {
+	if _, ok := ex.src.Funcs[name]; ok {
 		if Uninterpreted[name] {
 			if len(vals) != 1 {
 				return nil, ex.undecided(id, "uninterpreted function %s with %d arguments", name, len(vals))
@@ -608,11 +602,41 @@ func (ex *expander) function(dot interp.Value, id *parse.IdentifierNode, args []
 			}
 			return interp.Tok(OpExported + s.Flat()), nil
 		}
-		cl := &interp.Closure{Lit: fl, Info: ex.src.FuncsInfo}
-		v, err := ex.m.Call(fl.Pos(), cl, vals)
+		cl, fpos, _ := ex.src.FuncValue(name)
+		v, err := ex.m.Call(fpos, cl, vals)
 		return v, ex.wrap(id, err)
 	}
 	switch name {
+	case "print", "printf":
+		ext := "fmt.Sprint"
+		if name == "printf" {
+			ext = "fmt.Sprintf"
+		} else {
+			// fmt.Sprint adds a space between operands when neither is a string
+			for i := 1; i < len(vals); i++ {
+				_, s1 := vals[i-1].(*interp.Sym)
+				_, s2 := vals[i].(*interp.Sym)
+				if !s1 && !s2 {
+					return nil, ex.undecided(id, "print of adjacent non-string operands")
+				}
+			}
+			for i, v := range vals {
+				switch n := v.(type) {
+				case int64:
+					vals[i] = interp.Lit(fmt.Sprint(n))
+				case bool:
+					vals[i] = interp.Lit(fmt.Sprint(n))
+				}
+			}
+		}
+		v, err := ex.m.Ext[ext](ex.m, token.NoPos, nil, vals)
+		if err != nil {
+			return nil, ex.wrap(id, err)
+		}
+		if _, ok := v.(*interp.Sym); !ok {
+			return nil, ex.undecided(id, "%s of %d operands is outside the analysed vocabulary", name, len(vals))
+		}
+		return v, nil
 	case "not":
 		if len(vals) != 1 {
 			return nil, ex.undecided(id, "not with %d arguments", len(vals))
